@@ -1193,7 +1193,7 @@ def case_fit(ctx, c):
 
 
 BIG_EVERY = 160   # every 160th model case is a large-population case (25 per quick run, each size >= 6 times)
-FAMILIES = {"model": (case_model, 4000, 96000), "fit": (case_fit, 400, 6400)}
+FAMILIES = {"model": (case_model, 4000, 72000), "fit": (case_fit, 400, 5000)}
 
 
 def run_shard(ctx):
